@@ -1172,6 +1172,12 @@ macro_rules! define_branch {
                 fork.ring_buffer.push(frame);
                 frame
             }
+
+            fn is_exhausted(&self) -> bool {
+                let fork = self.shared_fork.borrow();
+                let pending = fork.pending == Fork::<S, D>::$SELF && fork.ring_buffer.len() > 0;
+                !pending && fork.signal.is_exhausted()
+            }
         }
 
         impl<'a, S, D> Signal for $TRef<'a, S, D>
@@ -1191,6 +1197,12 @@ macro_rules! define_branch {
                 let frame = fork.signal.next();
                 fork.ring_buffer.push(frame);
                 frame
+            }
+
+            fn is_exhausted(&self) -> bool {
+                let fork = self.shared_fork.borrow();
+                let pending = fork.pending == Fork::<S, D>::$SELF && fork.ring_buffer.len() > 0;
+                !pending && fork.signal.is_exhausted()
             }
         }
 
